@@ -281,7 +281,7 @@ func (w *World) reason(label string) string {
 var fixedAmounts = []string{"1", "2", "10", "0.5", "2.5", "0.000001", "100", "7.123456", "1000", "3.3", "0.1"}
 var oddForms = []string{"+5", "5.0", "05", "1e1", "2.5E-1", "1E+2", "0.50", "1.000000", ".5", "5."}
 var badAmounts = []string{"", "0", "-1", "0.0000001", "1.0000000", "abc", "1e-7", "NaN", "Infinity", "0.0", "-0", "1e100"}
-var hugeAmounts = []string{"1e20", "100000000000000000000", "123456789012345678901234.567891", "1e29", "1e30", "99999999999999999999999999999.999999", "1E+33"}
+var hugeAmounts = []string{"10000000000000000000", "9223372036854775808", "9223372036854775807", "18446744073709551616", "4611686018427387904", "1e20", "100000000000000000000", "123456789012345678901234.567891", "1e29", "1e30", "99999999999999999999999999999.999999", "1E+33"}
 
 // Amount draws a credit amount string. avail (may be nil) biases towards the
 // boundary of what the signer has.
